@@ -2,7 +2,8 @@
 
 // Contracts for package usermanager, checked by /verif/govc. Comment-only.
 // The bbolt database is an assumed ghost map (bucket name -> key -> bytes), see /verif/govc/models_bolt.go:
-// dbHas(b), dbKey(b,k), dbLen(b,k), dbByte(b,k,i) read it.
+// dbHas(b), dbKey(b,k), dbLen(b,k), dbByte(b,k,i) read it; dbSame() / dbRecSame(b) / dbFieldSame(b,k)
+// compare it with the old state.
 package usermanager
 
 //@ ghost func bkt(UID []byte) string { return strOfBytes(UID) }
@@ -25,3 +26,75 @@ package usermanager
 //@   ensures credit: ret2 == nil ==> dbI64(bkt(UID), "UpCredit") > 0 && dbI64(bkt(UID), "DownCredit") > 0
 //@   ensures notExpired: ret2 == nil ==> dbI64(bkt(UID), "ExpiryTime") * 1000000000 >= old(clock()) - 999999999
 //@   ensures rates: ret2 == nil ==> int(ret0) == dbI64(bkt(UID), "UpRate") && int(ret1) == dbI64(bkt(UID), "DownRate")
+
+// AuthoriseNewSession (C15): nil error only below the session cap, with credit, not expired.
+//@ func (*localManager).AuthoriseNewSession
+//@   requires manager != nil && manager.db != nil && dbWF() && len(UID) == 16
+//@   ensures exists: ret0 == nil ==> dbHas(bkt(UID))
+//@   ensures belowCap: ret0 == nil ==> ainfo.NumExistingSessions < dbU32(bkt(UID), "SessionsCap")
+//@   ensures credit: ret0 == nil ==> dbI64(bkt(UID), "UpCredit") > 0 && dbI64(bkt(UID), "DownCredit") > 0
+//@   ensures notExpired: ret0 == nil ==> dbI64(bkt(UID), "ExpiryTime") * 1000000000 >= old(clock()) - 999999999
+
+// GetUserInfo (C18): what is returned is what is stored.
+//@ func (*localManager).GetUserInfo
+//@   requires manager != nil && manager.db != nil && dbWF()
+//@   ensures found: err == nil <==> dbHas(bkt(UID))
+//@   ensures fields: err == nil ==> uinfo.UpRate != nil && int(*uinfo.UpRate) == dbI64(bkt(UID), "UpRate") && uinfo.DownRate != nil && int(*uinfo.DownRate) == dbI64(bkt(UID), "DownRate") && uinfo.UpCredit != nil && int(*uinfo.UpCredit) == dbI64(bkt(UID), "UpCredit") && uinfo.DownCredit != nil && int(*uinfo.DownCredit) == dbI64(bkt(UID), "DownCredit") && uinfo.ExpiryTime != nil && int(*uinfo.ExpiryTime) == dbI64(bkt(UID), "ExpiryTime")
+//@   ensures uid: err == nil ==> sameSlice(uinfo.UID, UID)
+//@   ensures readOnly: dbSame()
+
+// ListAllUsers (C18): no stored record makes the listing panic.
+// (no frame is claimed for memory: the result slice is grown by append inside the ForEach callback,
+// which is cut without an invariant; callers see "modifies *" apart from the database)
+//@ func (*localManager).ListAllUsers
+//@   requires manager != nil && manager.db != nil && dbWF()
+//@   ensures readOnly: dbSame()
+//@   flag noframe
+
+// DeleteUser (C18): the user is gone, nobody else is touched.
+//@ func (*localManager).DeleteUser
+//@   requires manager != nil && manager.db != nil
+//@   ensures gone: err == nil ==> !dbHas(bkt(UID))
+//@   ensures nobodyElse: forall b string :: b != bkt(UID) ==> dbRecSame(b)
+//@   ensures atomic: err != nil ==> dbSame()
+//@   modifies heap(GD_has)
+
+// big-endian encoders: 8 (4) fresh bytes that decode back to the value
+//@ func i64ToB
+//@   ensures len(ret0) == 8 && fresh(ret0)
+//@   ensures value: signed64(int(ret0[0])*72057594037927936 + int(ret0[1])*281474976710656 + int(ret0[2])*1099511627776 + int(ret0[3])*4294967296 + int(ret0[4])*16777216 + int(ret0[5])*65536 + int(ret0[6])*256 + int(ret0[7])) == int(value)
+//@ func i32ToB
+//@   ensures len(ret0) == 4 && fresh(ret0)
+//@   ensures value: int(ret0[0])*16777216 + int(ret0[1])*65536 + int(ret0[2])*256 + int(ret0[3]) == int(uint32(value))
+
+//@ func putIfAbsent
+//@   flag inline
+
+// WriteUserInfo (C18): exactly the mentioned fields are written with exactly the given values, every
+// other field that had a value and every other user keeps it, a failed request changes nothing, and
+// the record stays decodable by every reader.
+//@ ghost func stored64(b string, k string, v int64) bool { return dbKey(b, k) && dbLen(b, k) == 8 && dbI64(b, k) == int(v) }
+//@ ghost func stored32(b string, k string, v int32) bool { return dbKey(b, k) && dbLen(b, k) == 4 && dbU32(b, k) == int(uint32(v)) }
+//@ ghost func hadField(b string, k string) bool { return dbHas(b) && dbKey(b, k) }
+//@ func (*localManager).WriteUserInfo
+//@   requires manager != nil && manager.db != nil
+//@   ensures atomic: err != nil ==> dbSame()
+//@   ensures created: err == nil ==> dbHas(bkt(u.UID))
+//@   ensures writtenCap: err == nil && u.SessionsCap != nil ==> stored32(bkt(u.UID), "SessionsCap", *u.SessionsCap)
+//@   ensures writtenUpRate: err == nil && u.UpRate != nil ==> stored64(bkt(u.UID), "UpRate", *u.UpRate)
+//@   ensures writtenDownRate: err == nil && u.DownRate != nil ==> stored64(bkt(u.UID), "DownRate", *u.DownRate)
+//@   ensures writtenUpCredit: err == nil && u.UpCredit != nil ==> stored64(bkt(u.UID), "UpCredit", *u.UpCredit)
+//@   ensures writtenDownCredit: err == nil && u.DownCredit != nil ==> stored64(bkt(u.UID), "DownCredit", *u.DownCredit)
+//@   ensures writtenExpiry: err == nil && u.ExpiryTime != nil ==> stored64(bkt(u.UID), "ExpiryTime", *u.ExpiryTime)
+//@   ensures keptCap: u.SessionsCap == nil && old(hadField(bkt(u.UID), "SessionsCap")) ==> dbFieldSame(bkt(u.UID), "SessionsCap")
+//@   ensures keptUpRate: u.UpRate == nil && old(hadField(bkt(u.UID), "UpRate")) ==> dbFieldSame(bkt(u.UID), "UpRate")
+//@   ensures keptDownRate: u.DownRate == nil && old(hadField(bkt(u.UID), "DownRate")) ==> dbFieldSame(bkt(u.UID), "DownRate")
+//@   ensures keptUpCredit: u.UpCredit == nil && old(hadField(bkt(u.UID), "UpCredit")) ==> dbFieldSame(bkt(u.UID), "UpCredit")
+//@   ensures keptDownCredit: u.DownCredit == nil && old(hadField(bkt(u.UID), "DownCredit")) ==> dbFieldSame(bkt(u.UID), "DownCredit")
+//@   ensures keptExpiry: u.ExpiryTime == nil && old(hadField(bkt(u.UID), "ExpiryTime")) ==> dbFieldSame(bkt(u.UID), "ExpiryTime")
+//@   # a field a NEW record was not given reads as zero
+//@   ensures newCreditZero: err == nil && !old(dbHas(bkt(u.UID))) ==> (u.UpCredit == nil ==> stored64(bkt(u.UID), "UpCredit", 0)) && (u.DownCredit == nil ==> stored64(bkt(u.UID), "DownCredit", 0))
+//@   ensures nobodyElse: forall b string :: b != bkt(u.UID) ==> dbRecSame(b)
+//@   # every record the API can create stays decodable by every reader (C18 "no record ... causes a panic")
+//@   ensures keepsRecordsReadable: old(dbWF()) ==> dbWF()
+//@   modifies heap(GD_has), heap(GD_khas), heap(GD_vlen), heap(GD_val)
